@@ -52,6 +52,7 @@ def rewrite_lin(l, fn_atom):
 def instantiate_inv(inv, key):
     """inv: list of disjuncts; each disjunct = list of (Lin over SELF atoms, meta).  -> list of list of Lin"""
     out = []
+    info = inv.get("atoms") or {}
     for conj in inv["disjuncts"]:
         ls = []
         for l in conj:
@@ -59,11 +60,30 @@ def instantiate_inv(inv, key):
                 na = subst_self(a, key)
                 if na not in ATOM_LO:
                     # copy static info from the template atom
-                    reg_atom(na, ATOM_LO.get(a), ATOM_HI.get(a), ATOM_MASK.get(a))
+                    if a in info:
+                        lo, hi, m = info[a]
+                    else:
+                        lo, hi, m = ATOM_LO.get(a), ATOM_HI.get(a), ATOM_MASK.get(a)
+                    if lo is None and hi is None:
+                        lo, hi, m = structural_bounds(na)
+                    reg_atom(na, lo, hi, m)
+                    from .lin import ensure_registered
+                    ensure_registered(na)
                 return na
             ls.append(rewrite_lin(l, fa))
         out.append(ls)
     return out
+
+
+def structural_bounds(a):
+    k = a[0] if isinstance(a, tuple) and a else None
+    if k == "byte":
+        return 0, 255, 255
+    if k in ("len", "veclen", "cap"):
+        return 0, I64MAX, None
+    if k == "and" and len(a) == 3 and isinstance(a[2], int):
+        return 0, a[2], a[2]
+    return None, None, None
 
 
 # --------------------------------------------------------------------------------------------- extraction
@@ -213,10 +233,12 @@ def extract_disjuncts(I, st, value, root_key=None, drop_fields=()):
     if root_key is None:
         root_key = (SELF, value.path)
     """like extract_disjunct but case-splits the disjunctive facts of the state (bounded)"""
-    if not st.disj:
+    # disequalities on content bytes / integer fields of the constructed value become range splits
+    extra_disj = neq_splits(I, st, value)
+    if not st.disj and not extra_disj:
         return [extract_disjunct(I, st, value, root_key, drop_fields)]
     combos = [[]]
-    for d in st.disj:
+    for d in list(st.disj) + extra_disj:
         if len(combos) * len(d) > 16:
             continue
         combos = [c + list(conj) for c in combos for conj in d]
@@ -232,6 +254,73 @@ def extract_disjuncts(I, st, value, root_key=None, drop_fields=()):
         if not sub.feasible():
             continue
         out.append(extract_disjunct(I, sub, value, root_key, drop_fields))
+    return out
+
+
+def value_atoms(I, st, v, acc, depth=0):
+    """atoms (of the current state) that describe the content/fields of value v"""
+    if depth > 6:
+        return
+    if isinstance(v, VInt):
+        a = v.lin.single_atom()
+        if a is not None:
+            acc.add(a)
+    elif isinstance(v, VRegion):
+        acc.add(("REGION", v.origin))
+        if v.origin[0] == "place":
+            arr = I.load(st, ("place", v.origin[1], v.origin[2], v.origin[3]))
+            if isinstance(arr, VArray) and arr.elems is not None:
+                for e in arr.elems:
+                    if isinstance(e, VInt):
+                        a = e.lin.single_atom()
+                        if a is not None:
+                            acc.add(a)
+    elif isinstance(v, VAdt) and v.fields is not None:
+        for f in v.fields:
+            value_atoms(I, st, f, acc, depth + 1)
+    elif isinstance(v, VTuple):
+        for f in v.fields:
+            value_atoms(I, st, f, acc, depth + 1)
+
+
+def neq_splits(I, st, value):
+    """disjunctions equivalent to the state's disequalities `atom != c` on atoms belonging to value"""
+    if not st.neqs:
+        return []
+    own = set()
+    value_atoms(I, st, value, own)
+    origins = {a[1] for a in own if a and a[0] == "REGION"}
+    per = {}
+    for n in st.neqs:
+        if len(n.t) != 1:
+            continue
+        (a, k), = n.t.items()
+        if k not in (1, -1):
+            continue
+        c = -n.c * k  # a != c
+        mine = a in own or (isinstance(a, tuple) and a and a[0] == "byte" and a[1] in origins)
+        if not mine:
+            continue
+        per.setdefault(a, set()).add(c)
+    out = []
+    for a, cs in per.items():
+        lo, hi = ATOM_LO.get(a), ATOM_HI.get(a)
+        if lo is None or hi is None or len(cs) > 6:
+            continue
+        cs = sorted(c for c in cs if lo <= c <= hi)
+        if not cs:
+            continue
+        ranges = []
+        cur = lo
+        for c in cs:
+            if c - 1 >= cur:
+                ranges.append((cur, c - 1))
+            cur = c + 1
+        if cur <= hi:
+            ranges.append((cur, hi))
+        if not ranges or len(ranges) > 4:
+            continue
+        out.append([[Lin.atom(a) - r0, Lin.const(r1) - Lin.atom(a)] for r0, r1 in ranges])
     return out
 
 
